@@ -276,6 +276,21 @@ MASKS = {
 
 # ------------------------------------------------------------------------------------------------ mask-level geometry
 
+def _sub_of(spec, m):
+    """sub-size option: an int, "ones" (adaptive Array2D, every entry 1) or "mixed" (adaptive Array2D 1,2,1,3,... containing 1)"""
+    import autoarray as aa
+    if isinstance(spec, int):
+        return spec
+    n = int(m.pixels_in_mask)
+    vals = np.ones(n, dtype=int) if spec == "ones" else np.array([(1, 2, 1, 3)[k % 4] for k in range(n)], dtype=int)
+    return aa.Array2D(values=vals, mask=m)
+
+
+def sub_variants(sub):
+    """the non-trivial sub size of the case plus the trivial ones (1 as int, all-ones map, mixed map containing 1)"""
+    return [sub, 1, "ones", "mixed"]
+
+
 def geometry_outputs(mask, scales, o, v, kernel, sub, pad, relc):
     """every mask-level coordinate / index producing entry point, for a mask built at origin o"""
     import autoarray as aa
@@ -291,22 +306,47 @@ def geometry_outputs(mask, scales, o, v, kernel, sub, pad, relc):
     R.put("derive_grid.unmasked", "coord", lambda: m.derive_grid.unmasked.slim.array)
     R.put("derive_grid.edge", "coord", lambda: m.derive_grid.edge.slim.array)
     R.put("derive_grid.border", "coord", lambda: m.derive_grid.border.slim.array)
-    R.put("Grid2D.blurring_grid_from", "coord", lambda: aa.Grid2D.blurring_grid_from(mask=m, kernel_shape_native=kernel).slim.array,
-          allow=("MaskException",))
-    R.put("Grid2D.padded_grid_from", "coord", lambda: g.padded_grid_from(kernel_shape_native=kernel).slim.array)
-    R.put("Grid2D.padded_grid_from.mask_origin", "coord", lambda: g.padded_grid_from(kernel_shape_native=kernel).mask.origin)
+    for kv in (kernel, (1, 1), (1, 3)):          # the case's kernel plus the trivial / degenerate ones
+        t = "" if kv == kernel else "[kernel=%dx%d]" % kv
+        R.put("Grid2D.blurring_grid_from" + t, "coord", lambda: aa.Grid2D.blurring_grid_from(mask=m, kernel_shape_native=kv).slim.array,
+              allow=("MaskException",))
+        R.put("Grid2D.blurring_grid_via_kernel_shape_from" + t, "coord",
+              lambda: g.blurring_grid_via_kernel_shape_from(kernel_shape_native=kv).slim.array, allow=("MaskException",))
+        R.put("Grid2D.padded_grid_from" + t, "coord", lambda: g.padded_grid_from(kernel_shape_native=kv).slim.array)
+        R.put("Grid2D.padded_grid_from.mask_origin" + t, "coord", lambda: g.padded_grid_from(kernel_shape_native=kv).mask.origin)
+        R.put("derive_mask.blurring_from.grid" + t, "coord",
+              lambda: m.derive_mask.blurring_from(kernel_shape_native=kv).derive_grid.unmasked.slim.array, allow=("MaskException",))
     R.put("Grid2D.subtracted_from", "coord", lambda: g.subtracted_from(offset=(0.25, -1.5)).slim.array)
-    osu = aa.OverSamplerUniform(mask=m, sub_size=sub)
-    R.put("OverSamplerUniform.over_sampled_grid", "coord", lambda: osu.over_sampled_grid.array)
-    R.put("OverSamplerUniform.slim_for_sub_slim", "inv", lambda: np.asarray(osu.slim_for_sub_slim, dtype=float))
-    R.put("OverSamplerUniform.sub_mask_native_for_sub_mask_slim", "inv", lambda: np.asarray(osu.sub_mask_native_for_sub_mask_slim, dtype=float))
-    R.put("OverSamplingUniform.from_radial_bins.sub_size", "inv",
-          lambda: aa.OverSamplingUniform.from_radial_bins(grid=g, sub_size_list=[4, 2, 1], radial_list=[0.75, 2.0, 100.0]).sub_size.array)
-    br = BorderRelocator(mask=m, sub_size=sub)
-    R.put("BorderRelocator.sub_grid", "coord", lambda: br.sub_grid)
-    R.put("BorderRelocator.border_grid", "coord", lambda: br.border_grid.array)
-    R.put("BorderRelocator.sub_border_grid", "coord", lambda: br.sub_border_grid)
-    R.put("BorderRelocator.sub_border_slim", "inv", lambda: np.asarray(br.sub_border_slim, dtype=float))
+    R.put("Grid2D.subtracted_from(0,0)", "coord", lambda: g.subtracted_from(offset=(0.0, 0.0)).slim.array)
+    for sv in sub_variants(sub):
+        t = "[sub=%s]" % sv
+        osu = hx.attempt(lambda: aa.OverSamplerUniform(mask=m, sub_size=_sub_of(sv, m)))
+        R.put("OverSamplerUniform.over_sampled_grid" + t, "coord", lambda: _reraise(osu).over_sampled_grid.array)
+        R.put("OverSamplerUniform.slim_for_sub_slim" + t, "inv", lambda: np.asarray(_reraise(osu).slim_for_sub_slim, dtype=float))
+        R.put("OverSamplerUniform.sub_mask_native_for_sub_mask_slim" + t, "inv",
+              lambda: np.asarray(_reraise(osu).sub_mask_native_for_sub_mask_slim, dtype=float))
+        R.put("OverSamplerUniform.binned_array_2d_from" + t, "inv",
+              lambda: _reraise(osu).binned_array_2d_from(array=np.arange(1.0, float(_reraise(osu).sub_total) + 1.0)).slim.array)
+        gos = hx.attempt(lambda: aa.Grid2D.from_mask(mask=m, over_sampling=aa.OverSamplingUniform(sub_size=_sub_of(sv, m))))
+        R.put("Grid2D.from_mask(over_sampling).grid" + t, "coord", lambda: _reraise(gos).slim.array)
+        R.put("Grid2D.from_mask(over_sampling).over_sampler.over_sampled_grid" + t, "coord",
+              lambda: _reraise(gos).over_sampler.over_sampled_grid.array)
+        R.put("Grid2D.uniform(over_sampling).over_sampler.over_sampled_grid" + t, "coord",
+              lambda: aa.Grid2D.uniform(shape_native=(H, W), pixel_scales=scales, origin=org, over_sampling=aa.OverSamplingUniform(
+                  sub_size=sv if isinstance(sv, int) else _sub_of(sv, aa.Mask2D.all_false(shape_native=(H, W), pixel_scales=scales, origin=org))
+              )).over_sampler.over_sampled_grid.array)
+        br = hx.attempt(lambda: BorderRelocator(mask=m, sub_size=_sub_of(sv, m)))
+        R.put("BorderRelocator.sub_grid" + t, "coord", lambda: _reraise(br).sub_grid)
+        R.put("BorderRelocator.sub_border_grid" + t, "coord", lambda: _reraise(br).sub_border_grid)
+        R.put("BorderRelocator.sub_border_slim" + t, "inv", lambda: np.asarray(_reraise(br).sub_border_slim, dtype=float))
+    R.put("BorderRelocator.border_grid", "coord", lambda: BorderRelocator(mask=m, sub_size=sub).border_grid.array)
+    rb = hx.attempt(lambda: aa.OverSamplingUniform.from_radial_bins(grid=g, sub_size_list=[4, 2, 1], radial_list=[0.75, 2.0, 100.0]))
+    R.put("OverSamplingUniform.from_radial_bins.sub_size", "inv", lambda: _reraise(rb).sub_size.array)
+    R.put("OverSamplingUniform.from_radial_bins.over_sampled_grid", "coord", lambda: _reraise(rb).over_sampler_from(mask=m).over_sampled_grid.array)
+    rb1 = hx.attempt(lambda: aa.OverSamplingUniform.from_radial_bins(grid=g, sub_size_list=[1, 1], radial_list=[0.5, 100.0],
+                                                                   centre_list=[(o[0] + 0.25, o[1] - 0.5)]))
+    R.put("OverSamplingUniform.from_radial_bins(all 1, centre_list).over_sampled_grid", "coord",
+          lambda: _reraise(rb1).over_sampler_from(mask=m).over_sampled_grid.array)
     R.put("Mask2D.mask_centre", "coord", lambda: m.mask_centre)
     R.put("Mask2D.geometry.extent", "extent", lambda: m.geometry.extent)
     R.put("Mask2D.geometry.scaled_maxima", "coord", lambda: m.geometry.scaled_maxima)
@@ -335,17 +375,22 @@ def geometry_outputs(mask, scales, o, v, kernel, sub, pad, relc):
     R.put("Mask2D.resized_from(smaller).grid", "coord", lambda: _reraise(sm).derive_grid.all_false.slim.array)
     R.put("Mask2D.rescaled_from.grid", "coord", lambda: m.rescaled_from(rescale_factor=2.0).derive_grid.all_false.slim.array)
     R.put("Array2D.resized_from.grid", "coord", lambda: arr.resized_from(new_shape=new_shape).mask.derive_grid.all_false.slim.array)
-    R.put("Array2D.padded_before_convolution_from.grid", "coord",
-          lambda: arr.padded_before_convolution_from(kernel_shape=kernel).mask.derive_grid.all_false.slim.array)
-    R.put("Array2D.trimmed_after_convolution_from.grid", "coord",
-          lambda: arr.trimmed_after_convolution_from(kernel_shape=kernel).mask.derive_grid.all_false.slim.array, allow=("ValueError", "MaskException", "ArrayException"))
+    for kv in (kernel, (1, 1)):
+        t = "" if kv == kernel else "[kernel=%dx%d]" % kv
+        R.put("Array2D.padded_before_convolution_from.grid" + t, "coord",
+              lambda: arr.padded_before_convolution_from(kernel_shape=kv).mask.derive_grid.all_false.slim.array)
+        R.put("Array2D.trimmed_after_convolution_from.grid" + t, "coord",
+              lambda: arr.trimmed_after_convolution_from(kernel_shape=kv).mask.derive_grid.all_false.slim.array,
+              allow=("ValueError", "MaskException", "ArrayException"))
+    # trivial resize / rescale options (same shape, factor 1)
+    R.put("Mask2D.resized_from(same shape).grid", "coord", lambda: m.resized_from(new_shape=(H, W)).derive_grid.unmasked.slim.array)
+    R.put("Mask2D.rescaled_from(1.0).grid", "coord", lambda: m.rescaled_from(rescale_factor=1.0).derive_grid.unmasked.slim.array)
+    R.put("Array2D.resized_from(same shape).grid", "coord", lambda: arr.resized_from(new_shape=(H, W)).mask.derive_grid.unmasked.slim.array)
     dm = m.derive_mask
     R.put("derive_mask.all_false.origin", "coord", lambda: dm.all_false.origin)
     R.put("derive_mask.edge.grid", "coord", lambda: dm.edge.derive_grid.unmasked.slim.array)
     R.put("derive_mask.edge_buffed.grid", "coord", lambda: dm.edge_buffed.derive_grid.unmasked.slim.array)
     R.put("derive_mask.border.grid", "coord", lambda: dm.border.derive_grid.unmasked.slim.array)
-    R.put("derive_mask.blurring_from.grid", "coord", lambda: dm.blurring_from(kernel_shape_native=kernel).derive_grid.unmasked.slim.array,
-          allow=("MaskException",))
     # a coordinate given relative to the origin (translated together with it): distances and pixel indices are unchanged
     c = (o[0] + relc[0], o[1] + relc[1])
     R.put("Grid2D.squared_distances_to_coordinate_from", "inv", lambda: g.squared_distances_to_coordinate_from(coordinate=c).array)
@@ -483,7 +528,8 @@ def case_overlay(ctx, scales, shape, bound, name=None, H=None, W=None):
     ctx.set_case(mask=mask.tolist())
     inputs = _sym_origin(ctx)
     inputs["mask"] = mask
-    _bound_origin(ctx, inputs, scales, bound)
+    if bound is not None:
+        _bound_origin(ctx, inputs, scales, bound)
     _run(ctx, body_overlay, inputs, {"H": H, "W": W, "scales": list(scales), "shape": list(shape)}, KNOWN_OVERLAY,
          validate_every=4, region="all")
 
@@ -534,10 +580,43 @@ def dataset_outputs(mask, scales, o, data_v, noise_v, sub):
     _dataset_grids(R, "Imaging.apply_noise_scaling", dn)
     dn2 = hx.attempt(lambda: _reraise(ds).apply_noise_scaling(mask=m, signal_to_noise_value=2.0, should_zero_data=False))
     _dataset_grids(R, "Imaging.apply_noise_scaling(snr)", dn2, values=False)
-    do = hx.attempt(lambda: _reraise(ds).apply_over_sampling(
-        over_sampling=aa.OverSamplingDataset(uniform=aa.OverSamplingUniform(sub_size=sub), pixelization=aa.OverSamplingUniform(sub_size=sub))))
-    _dataset_grids(R, "Imaging.apply_over_sampling", do)
-    R.put("Imaging.apply_over_sampling.over_sampled", "coord", lambda: _reraise(do).grids.uniform.over_sampler.over_sampled_grid.array)
+    for sv in sub_variants(sub):
+        t = "[sub=%s]" % sv
+        # un-masked dataset (adaptive maps live on its all-False mask) and masked dataset (maps live on m)
+        for tag, base, bm in (("Imaging.apply_over_sampling", ds, None), ("Imaging.apply_mask.apply_over_sampling", dm, m)):
+            def mk(base=base, bm=bm):
+                b = _reraise(base)
+                ss = _sub_of(sv, bm if bm is not None else b.data.mask)
+                return b.apply_over_sampling(over_sampling=aa.OverSamplingDataset(
+                    uniform=aa.OverSamplingUniform(sub_size=ss), non_uniform=aa.OverSamplingUniform(sub_size=ss),
+                    pixelization=aa.OverSamplingUniform(sub_size=ss)))
+            do = hx.attempt(mk)
+            _dataset_grids(R, tag + t, do, values=False)
+            R.put(tag + t + ".uniform.over_sampled", "coord", lambda: _reraise(do).grids.uniform.over_sampler.over_sampled_grid.array)
+            R.put(tag + t + ".non_uniform.over_sampled", "coord", lambda: _reraise(do).grids.over_sampler_non_uniform.over_sampled_grid.array)
+            R.put(tag + t + ".pixelization.over_sampled", "coord", lambda: _reraise(do).grids.over_sampler_pixelization.over_sampled_grid.array)
+            R.put(tag + t + ".border_relocator.sub_grid", "coord", lambda: _reraise(do).grids.border_relocator.sub_grid)
+        if isinstance(sv, int):
+            # over sampling given at construction and carried through apply_mask
+            dc = hx.attempt(lambda: aa.Imaging(data=data, noise_map=noise, psf=psf, check_noise_map=False, over_sampling=aa.OverSamplingDataset(
+                uniform=aa.OverSamplingUniform(sub_size=sv), pixelization=aa.OverSamplingUniform(sub_size=sv))).apply_mask(mask=m))
+            R.put("Imaging(over_sampling).apply_mask" + t + ".uniform.over_sampled", "coord",
+                  lambda: _reraise(dc).grids.uniform.over_sampler.over_sampled_grid.array)
+            R.put("Imaging(over_sampling).apply_mask" + t + ".pixelization.over_sampled", "coord",
+                  lambda: _reraise(dc).grids.over_sampler_pixelization.over_sampled_grid.array)
+            R.put("Imaging(over_sampling).apply_mask" + t + ".border_relocator.sub_border_grid", "coord",
+                  lambda: _reraise(dc).grids.border_relocator.sub_border_grid)
+    dd = hx.attempt(lambda: _reraise(ds).apply_over_sampling())          # default argument: keeps the current schemes
+    _dataset_grids(R, "Imaging.apply_over_sampling(default)", dd, values=False)
+    # no PSF (no blurring grid, no padding) and a 1x1 PSF
+    dnp = hx.attempt(lambda: aa.Imaging(data=data, noise_map=noise, psf=None, check_noise_map=False).apply_mask(mask=m))
+    _dataset_grids(R, "Imaging(psf=None).apply_mask", dnp, values=False)
+    psf1 = aa.Kernel2D.no_mask(values=[[1.0]], pixel_scales=scales)
+    d11 = hx.attempt(lambda: aa.Imaging(data=data, noise_map=noise, psf=psf1, check_noise_map=False).apply_mask(mask=m))
+    _dataset_grids(R, "Imaging(psf 1x1).apply_mask", d11, values=False)
+    R.put("Imaging(psf 1x1).apply_mask.grids.blurring", "coord", lambda: _reraise(d11).grids.blurring.slim.array)
+    dt1 = hx.attempt(lambda: _reraise(ds).trimmed_after_convolution_from(kernel_shape=(1, 1)))
+    _dataset_grids(R, "Imaging.trimmed_after_convolution_from(1x1)", dt1, values=False)
     dt = hx.attempt(lambda: _reraise(ds).trimmed_after_convolution_from(kernel_shape=(3, 3)))
     _dataset_grids(R, "Imaging.trimmed_after_convolution_from", dt)
     dmt = hx.attempt(lambda: _reraise(dm).trimmed_after_convolution_from(kernel_shape=(3, 3)))
@@ -546,6 +625,13 @@ def dataset_outputs(mask, scales, o, data_v, noise_v, sub):
                               include_poisson_noise_in_noise_map=False, noise_if_add_noise_false=0.25, noise_seed=1)
     dsim = hx.attempt(lambda: sim.via_image_from(image=data))
     _dataset_grids(R, "SimulatorImaging.via_image_from", dsim, values=False)
+    sim0 = aa.SimulatorImaging(exposure_time=128.0, background_sky_level=0.5, noise_seed=1)      # defaults: no PSF, Poisson noise on
+    dsim0 = hx.attempt(lambda: sim0.via_image_from(image=data + 2.0))
+    _dataset_grids(R, "SimulatorImaging(defaults).via_image_from", dsim0, values=False)
+    nlm = hx.attempt(lambda: preprocess.noise_map_with_signal_to_noise_limit_from(
+        data=data, noise_map=noise, signal_to_noise_limit=2.0, noise_limit_mask=np.array(mask)))
+    R.put("preprocess.noise_map_with_signal_to_noise_limit_from(noise_limit_mask).grid", "coord",
+          lambda: _reraise(nlm).mask.derive_grid.unmasked.slim.array)
     nl = hx.attempt(lambda: preprocess.noise_map_with_signal_to_noise_limit_from(data=data, noise_map=noise, signal_to_noise_limit=2.0))
     R.put("preprocess.noise_map_with_signal_to_noise_limit_from.origin", "coord", lambda: _reraise(nl).mask.origin)
     R.put("preprocess.noise_map_with_signal_to_noise_limit_from.grid", "coord", lambda: _reraise(nl).mask.derive_grid.unmasked.slim.array)
@@ -658,6 +744,12 @@ def radial_outputs(H, W, scales, o, relc, angle):
     R.put("Grid2D.grid_2d_radial_projected_shape_slim_from", "inv", lambda: g.grid_2d_radial_projected_shape_slim_from(centre=c) * 1.0)
     R.put("Grid2D.grid_2d_radial_projected_from", "coord",
           lambda: g.grid_2d_radial_projected_from(centre=c, angle=angle, remove_projected_centre=False).array)
+    R.put("Grid2D.grid_2d_radial_projected_from(remove centre)", "coord",
+          lambda: g.grid_2d_radial_projected_from(centre=c, angle=angle, remove_projected_centre=True).array)
+    R.put("Grid2D.grid_2d_radial_projected_from(shape_slim=1)", "coord",
+          lambda: g.grid_2d_radial_projected_from(centre=c, angle=angle, shape_slim=1, remove_projected_centre=False).array)
+    R.put("Grid2D.grid_2d_radial_projected_from(shape_slim=3)", "coord",
+          lambda: g.grid_2d_radial_projected_from(centre=c, angle=angle, shape_slim=3, remove_projected_centre=False).array)
     return R
 
 
@@ -694,7 +786,7 @@ def mapper_outputs(mask, scales, o, sub, kind, mesh_shape):
     import autoarray as aa
     R = Out()
     m = aa.Mask2D(mask=mask.copy(), pixel_scales=scales, origin=(o[0], o[1]))
-    osamp = aa.OverSamplerUniform(mask=m, sub_size=sub)
+    osamp = aa.OverSamplerUniform(mask=m, sub_size=_sub_of(sub, m))
     data_grid = osamp.over_sampled_grid
     _CUR_ORIGIN[0] = o
     if kind == "rectangular":
@@ -703,11 +795,12 @@ def mapper_outputs(mask, scales, o, sub, kind, mesh_shape):
                                                        source_plane_mesh_grid=None))
     else:
         mesh = aa.mesh.Delaunay()
-        pts = aa.Grid2DIrregular(values=[(o[0] + a * scales[0], o[1] + b * scales[1]) for (a, b) in DELAUNAY_REL])
+        rel = DELAUNAY_REL if kind == "delaunay" else DELAUNAY_REL[5:8]          # "delaunay3": a single triangle
+        pts = aa.Grid2DIrregular(values=[(o[0] + a * scales[0], o[1] + b * scales[1]) for (a, b) in rel])
         mg = hx.attempt(lambda: mesh.mapper_grids_from(mask=m, border_relocator=None, source_plane_data_grid=data_grid,
                                                        source_plane_mesh_grid=pts))
     mp = hx.attempt(lambda: aa.Mapper(mapper_grids=_reraise(mg), over_sampler=osamp, regularization=None))
-    tag = "Mapper%s" % kind.capitalize()
+    tag = "Mapper%s" % ("Rectangular" if kind == "rectangular" else "Delaunay")
     R.put(tag + ".source_plane_mesh_grid", "coord", lambda: _reraise(mp).source_plane_mesh_grid.array)
     R.put(tag + ".source_plane_data_grid", "coord", lambda: _reraise(mp).source_plane_data_grid.array)
     if kind == "rectangular":
@@ -849,12 +942,18 @@ def cases(tier):
         out.append(("case_geometry_named", {"name": name, "scales": SCALES[n % len(SCALES)]}))
         if not quick:
             out.append(("case_geometry_named", {"name": name, "scales": SCALES[(n + 2) % len(SCALES)], "kernel": [3, 5], "sub": 3, "pad": [1, 4]}))
-    # the overlay mesh forks on origin-dependent pixel indices while finding overlay-mesh-origin is open: few masks, bounded origin
+    # overlay image mesh: 2x2 plus the degenerate 1x1 / 1xN / Nx1 meshes.  |o|,|o+d| bounded on two cases (a fault that makes the
+    # mask look-up origin-dependent then forks over finitely many pixel indices), unbounded on the others
     out.append(("case_overlay", {"name": "ring5", "scales": [1.0, 1.0], "shape": [2, 2], "bound": 1.0}, {"split": 3}))
     out.append(("case_overlay", {"name": "full3x3", "scales": [0.5, 2.0], "shape": [2, 2], "bound": 0.75}, {"split": 2}))
+    for n, (name, shp) in enumerate([("disc7", (3, 3)), ("ring5", (1, 1)), ("blob6x7", (1, 3)), ("cross7", (3, 1)), ("edge4x6", (2, 3))]):
+        out.append(("case_overlay", {"name": name, "scales": SCALES[n % len(SCALES)], "shape": list(shp), "bound": None}))
+    out.append(("case_overlay", {"H": 2, "W": 3, "scales": [2.0, 0.25], "shape": [2, 2], "bound": None}))
     if not quick:
         out.append(("case_overlay", {"name": "blob6x7", "scales": [2.0, 0.25], "shape": [2, 3], "bound": 0.5}))
         out.append(("case_overlay", {"H": 2, "W": 2, "scales": [1.0, 1.0], "shape": [2, 2], "bound": 0.75}, {"split": 3}))
+        out.append(("case_overlay", {"H": 3, "W": 3, "scales": [0.5, 2.0], "shape": [3, 2], "bound": None}, {"split": 4}))
+        out.append(("case_overlay", {"H": 3, "W": 3, "scales": [1.0, 1.0], "shape": [1, 1], "bound": None}, {"split": 4}))
     for (H, W, sc) in [(5, 8, (0.5, 2.0)), (6, 9, (1.0, 0.25)), (3, 3, (3.0, 1.0)), (4, 4, (1.0, 1.0))]:
         out.append(("case_points", {"H": H, "W": W, "scales": list(sc), "N": 2, "cls": False}))
     for (H, W, sc) in [(2, 3, (0.5, 2.0)), (3, 2, (2.0, 0.25))] + ([] if quick else [(4, 5, (0.25, 0.5)), (3, 3, (1.0, 1.0))]):
@@ -862,14 +961,20 @@ def cases(tier):
     for (H, W, sc, ang) in [(3, 4, (2.0, 0.25), 0.0), (4, 3, (1.0, 1.0), 30.0), (5, 5, (0.5, 2.0), 90.0)] + \
             ([] if quick else [(6, 7, (0.25, 0.5), 120.0), (2, 9, (3.0, 1.0), 45.0)]):
         out.append(("case_radial", {"H": H, "W": W, "scales": list(sc), "angle": ang}))
+    subs = [2, 1, "ones", "mixed"]
     for n, name in enumerate(["disc7", "ring5", "cross7", "edge4x6"] + ([] if quick else ["blob6x7", "two5x6", "full4x3"])):
-        out.append(("case_mapper", {"name": name, "scales": SCALES[(n + 1) % len(SCALES)], "kind": "rectangular", "mesh_shape": [3, 3] if n % 2 == 0 else [3, 4]}))
-    for n, name in enumerate(["disc7", "cross7"] + ([] if quick else ["blob6x7", "ring5", "full4x3"])):
-        out.append(("case_mapper", {"name": name, "scales": SCALES[n % len(SCALES)], "kind": "delaunay"}))
-    out.append(("case_mapper", {"H": 2, "W": 2, "scales": [0.5, 2.0], "kind": "rectangular", "mesh_shape": [3, 3]}))
+        out.append(("case_mapper", {"name": name, "scales": SCALES[(n + 1) % len(SCALES)], "kind": "rectangular", "sub": subs[n % 4],
+                                    "mesh_shape": [3, 3] if n % 2 == 0 else [3, 4]}))
+    for n, name in enumerate(["disc7", "cross7", "full4x3", "ring5"] + ([] if quick else ["blob6x7", "edge4x6"])):
+        out.append(("case_mapper", {"name": name, "scales": SCALES[n % len(SCALES)], "kind": "delaunay", "sub": subs[n % 4]}))
+    out.append(("case_mapper", {"name": "disc7", "scales": [1.0, 1.0], "kind": "delaunay3", "sub": 1}))
+    out.append(("case_mapper", {"H": 2, "W": 2, "scales": [0.5, 2.0], "kind": "rectangular", "mesh_shape": [3, 3], "sub": 1}))
+    out.append(("case_mapper", {"H": 2, "W": 2, "scales": [0.5, 2.0], "kind": "rectangular", "mesh_shape": [3, 3], "sub": "mixed"}))
     if not quick:
-        out.append(("case_mapper", {"H": 2, "W": 3, "scales": [1.0, 1.0], "kind": "rectangular", "mesh_shape": [4, 3]}, {"split": 2}))
-        out.append(("case_mapper", {"H": 2, "W": 3, "scales": [2.0, 0.25], "kind": "delaunay"}, {"split": 2}))
+        out.append(("case_mapper", {"H": 2, "W": 3, "scales": [1.0, 1.0], "kind": "rectangular", "mesh_shape": [4, 3], "sub": 2}, {"split": 2}))
+        out.append(("case_mapper", {"H": 2, "W": 3, "scales": [1.0, 1.0], "kind": "rectangular", "mesh_shape": [3, 3], "sub": "ones"}, {"split": 2}))
+        out.append(("case_mapper", {"H": 2, "W": 3, "scales": [2.0, 0.25], "kind": "delaunay", "sub": 2}, {"split": 2}))
+        out.append(("case_mapper", {"H": 2, "W": 3, "scales": [2.0, 0.25], "kind": "delaunay", "sub": 1}, {"split": 2}))
     for n, name in enumerate(["ring5", "edge4x6", "full4x3", "blob6x7"] + ([] if quick else ["disc7", "two5x6", "corner6", "row3x7"])):
         out.append(("case_dataset", {"name": name, "scales": SCALES[n % len(SCALES)]}))
     if not quick:
